@@ -488,6 +488,26 @@ pub fn gen_c16(rng: &mut Rng, thorough: bool) -> Vec<Tagged> {
             }
         }
     }
+    // skip connections into a FLAT input of more than 2^12 elements that is no multiple of 2^12 (a 1 x 72 x 72 image
+    // through a 1x1 convolution, flattened in front of a dense layer: 5184 values; 66 x 67 = 4422), every accumulation
+    for (k, acc) in ALL_ACCS.iter().enumerate() {
+        let (h, w) = if k % 2 == 0 { (72usize, 72usize) } else { (66, 67) };
+        if !(thorough || k < 2) {
+            continue;
+        }
+        let input = Sh::Sp(1, h, w);
+        let c = Simple::Conv { filters: 1, kernel: (1, 1), stride: (1, 1), padding: (0, 0), dilation: (1, 1), act: Act::Linear, dropout: None };
+        let d = Simple::Dense { out: 2, act: Act::Linear, bias: false, dropout: None };
+        let mut spec = NetSpec::new(input.to_shape());
+        let wd: Vec<f32> = (0..2 * h * w).map(|i| ((i * 13) % 31) as f32 * 0.01 - 0.15).collect();
+        spec.weights = Some(vec![LW::One(W::Kernels(vec![t3(1, 1, 1, &[0.5])])), LW::One(W::Dense(t2(2, h * w, &wd), None))]);
+        spec.layers.push(LayerSpec::One(c));
+        spec.layers.push(LayerSpec::One(d));
+        spec.connect = vec![(0, 1)];
+        spec.skipacc = *acc;
+        let x = tensor_of_shape(&input.to_shape(), &(0..h * w).map(|i| ((i * 7) % 23) as f32 * 0.1 - 1.0).collect::<Vec<_>>());
+        out.push((format!("skip-{:?}-into-huge-flat-input-predict", acc), Case::Net(spec, NetCmd::Predict(x))));
+    }
     // every entry point on skip networks (not only forward): chained connections (the source of one is the
     // target of another), one source at index >= 1 feeding several targets, a self connection feeding on,
     // every accumulation; plus direct writes of the public map
@@ -718,6 +738,56 @@ pub fn gen_c17(rng: &mut Rng, thorough: bool) -> Vec<Tagged> {
             let x = tensor_of_shape(&input.to_shape(), &[x0, -x0 * 0.5]);
             out.push((format!("loop-{:?}-tiny-steps-v{}", acc, variant), Case::Net(spec.clone(), NetCmd::Forward(x.clone()))));
             out.push((format!("loop-{:?}-tiny-steps-v{}-predict", acc, variant), Case::Net(spec, NetCmd::Predict(x))));
+        }
+    }
+    // a loop whose FIRST layer is a spatial layer that receives a FLAT tensor on the first pass: directly behind a
+    // dense layer with r*r outputs, or layer 0 of an image network that is handed a flat input; convolution,
+    // deconvolution and max-pool; every accumulation
+    for (ai, acc) in ALL_ACCS.iter().enumerate() {
+        for variant in 0..4 {
+            let same_conv = Simple::Conv { filters: 1, kernel: (3, 3), stride: (1, 1), padding: (1, 1), dilation: (1, 1), act: Act::Tanh, dropout: None };
+            let first_spatial = match variant {
+                1 => Simple::Maxpool { kernel: (1, 1), stride: (1, 1) },
+                2 => Simple::Deconv { filters: 1, kernel: (1, 1), stride: (1, 1), padding: (0, 0), act: Act::Sigmoid, dropout: None },
+                _ => same_conv.clone(),
+            };
+            let sp = Sh::Sp(1, 3, 3);
+            let k = 1 + (ai + variant) % 3;
+            let (spec, x): (NetSpec, Tensor) = if variant < 3 {
+                let d0 = Simple::Dense { out: 9, act: Act::Tanh, bias: true, dropout: None };
+                let head = Simple::Dense { out: 2, act: Act::Linear, bias: true, dropout: None };
+                let mut spec = NetSpec::new(Sh::Flat(4).to_shape());
+                let mut ws = vec![LW::One(rand_w(rng, &d0, Sh::Flat(4), 1))];
+                ws.push(LW::One(match &first_spatial { Simple::Maxpool { .. } => W::None, l => rand_w(rng, l, sp, 1) }));
+                spec.layers.push(LayerSpec::One(d0));
+                spec.layers.push(LayerSpec::One(first_spatial));
+                let last_in_loop = if variant == 0 && ai % 2 == 1 {
+                    ws.push(LW::One(rand_w(rng, &same_conv, sp, 1)));
+                    spec.layers.push(LayerSpec::One(same_conv.clone()));
+                    2
+                } else {
+                    1
+                };
+                ws.push(LW::One(rand_w(rng, &head, Sh::Flat(9), 1)));
+                spec.layers.push(LayerSpec::One(head));
+                spec.weights = Some(ws);
+                spec.loops = vec![(last_in_loop, 1, k, false)];
+                spec.loopacc = *acc;
+                (spec, rand_input(rng, Sh::Flat(4), 0))
+            } else {
+                // an image network handed a flat input; the loop starts at layer 0
+                let head = Simple::Dense { out: 2, act: Act::Linear, bias: true, dropout: None };
+                let mut spec = NetSpec::new(sp.to_shape());
+                spec.weights = Some(vec![LW::One(rand_w(rng, &same_conv, sp, 1)), LW::One(rand_w(rng, &same_conv, sp, 1)), LW::One(rand_w(rng, &head, Sh::Flat(9), 1))]);
+                spec.layers.push(LayerSpec::One(same_conv.clone()));
+                spec.layers.push(LayerSpec::One(same_conv.clone()));
+                spec.layers.push(LayerSpec::One(head));
+                spec.loops = vec![(ai % 2, 0, k, false)];
+                spec.loopacc = *acc;
+                (spec, t1(rng.vec(9, 0)))
+            };
+            out.push((format!("loop-{:?}-starts-at-spatial-layer-fed-flat-v{}", acc, variant), Case::Net(spec.clone(), NetCmd::Forward(x.clone()))));
+            out.push((format!("loop-{:?}-starts-at-spatial-layer-fed-flat-v{}-predict", acc, variant), Case::Net(spec, NetCmd::Predict(x))));
         }
     }
     // NESTED loop connections: an inner loop strictly inside an outer one (different start layers, the same start
@@ -1807,6 +1877,34 @@ pub fn gen_c12(rng: &mut Rng, thorough: bool) -> Vec<Tagged> {
             out.push(("validate-degenerate-tolerance-70".into(), Case::Net(spec2.clone(), NetCmd::Validate { data: data2.clone(), tol, pre_training: false })));
         }
     }
+    // the OUTPUT layer (soft-max, and element-wise) is the end of a loop connection: what is scored is the
+    // prediction, i.e. the accumulated OUTPUTS of the iterations (arg-max of the accumulated probabilities, not of
+    // accumulated logits); every accumulation, loops over the output layer alone and over the whole network
+    for (ai, acc) in ALL_ACCS.iter().enumerate() {
+        for variant in 0..4 {
+            let softmax = variant % 2 == 0;
+            let mut spec = NetSpec::new(Sh::Flat(3).to_shape());
+            let d1 = Simple::Dense { out: 3, act: Act::Tanh, bias: true, dropout: None };
+            let d2 = Simple::Dense { out: 3, act: if softmax { Act::Softmax } else { Act::Sigmoid }, bias: true, dropout: None };
+            let w2: Vec<f32> = (0..9).map(|i| [2.5f32, -1.5, 0.5, -2.0, 3.0, 1.0, 0.25, -0.75, 2.0][(i + ai) % 9]).collect();
+            spec.weights = Some(vec![LW::One(rand_w(rng, &d1, Sh::Flat(3), 2)), LW::One(W::Dense(t2(3, 3, &w2), Some(t1(vec![0.3, -0.2, 0.1]))))]);
+            spec.layers.push(LayerSpec::One(d1));
+            spec.layers.push(LayerSpec::One(d2));
+            spec.loopacc = *acc;
+            spec.loops = vec![if variant < 2 { (1, 1, 1 + ai % 2, false) } else { (1, 0, 1 + (ai + 1) % 2, false) }];
+            spec.obj = if softmax { Obj::CE } else { Obj::MSE };
+            let data: Vec<(Tensor, Tensor)> = (0..76).map(|i| {
+                let x = vec![((i * 37) % 41) as f32 * 0.1 - 2.0, ((i * 53) % 29) as f32 * 0.15 - 2.0, ((i * 11) % 23) as f32 * 0.2 - 2.2];
+                let mut t = vec![0.0f32; 3];
+                t[i % 3] = 1.0;
+                (t1(x), t1(t))
+            }).collect();
+            out.push((format!("validate-output-layer-ends-a-loop-{:?}", acc), Case::Net(spec.clone(), NetCmd::Validate { data: data.clone(), tol: 0.4, pre_training: false })));
+            if variant == 0 {
+                out.push((format!("predict-batch-output-layer-ends-a-loop-{:?}", acc), Case::Net(spec, NetCmd::PredictBatch(data.iter().take(5).map(|d| d.0.clone()).collect()))));
+            }
+        }
+    }
     // evaluation sets beyond 64 x 64 samples (4096, 4097, 4160, 4161, 10007): every sample is scored against ITS
     // target, every sample counts once (targets and predictions vary from sample to sample)
     for (k, &nd) in [4160usize, 4097, 4161, 4096, 10007].iter().enumerate() {
@@ -1947,6 +2045,12 @@ pub fn gen_c05(rng: &mut Rng, thorough: bool) -> Vec<Tagged> {
         out.push(("par-learn-conv-chain-equal-padded-size".into(), Case::Net(sp.clone(), NetCmd::Learn { data, val: None, batch: 3, epochs: 2 })));
         out.push(("par-predict-batch-conv-chain-equal-padded-size".into(), Case::Net(sp, NetCmd::PredictBatch(xs))));
     }
+    // 72 and 130 outputs under every regression objective: the per-sample loss is summed in order
+    for (k, obj) in [Obj::MSE, Obj::MAE, Obj::AE, Obj::RMSE].into_iter().enumerate() {
+        let (spec, data) = wide_output_job(rng, if k % 2 == 0 { 72 } else { 130 }, obj, 9);
+        out.push(("par-learn-wide-output-regression".into(), Case::Net(spec.clone(), NetCmd::Learn { data: data.clone(), val: Some((data.clone(), 100)), batch: 4, epochs: 2 })));
+        out.push(("par-validate-wide-output-regression".into(), Case::Net(spec, NetCmd::Validate { data, tol: 0.1, pre_training: false })));
+    }
     // a soft-max output over 96 and 200 classes (cross-entropy): the denominator is summed in order
     for &classes in &[96usize, 200] {
         let (spec, data) = wide_softmax_job(rng, classes, 12);
@@ -2080,6 +2184,19 @@ pub fn wide_softmax_job(rng: &mut Rng, classes: usize, n: usize) -> (NetSpec, Ve
     (spec, data)
 }
 
+/// a 6 -> `outs` dense network (64 outputs and more) under a regression objective: the per-sample loss is a sum
+/// over many output components
+pub fn wide_output_job(rng: &mut Rng, outs: usize, obj: Obj, n: usize) -> (NetSpec, Vec<(Tensor, Tensor)>) {
+    let mut spec = NetSpec::new(Sh::Flat(6).to_shape());
+    let d = Simple::Dense { out: outs, act: Act::Tanh, bias: true, dropout: None };
+    spec.weights = Some(vec![LW::One(rand_w(rng, &d, Sh::Flat(6), 2))]);
+    spec.layers.push(LayerSpec::One(d));
+    spec.opt = Opt::SGD { lr: 0.01, decay: None };
+    spec.obj = obj;
+    let data = rand_data(rng, n, Sh::Flat(6), Sh::Flat(outs), obj);
+    (spec, data)
+}
+
 /// runs one job in pools of every size, repeated, with and without schedule perturbation: all results equal
 fn across_pools(f: &mut crate::fals::Fals, rng: &mut Rng, pools: &[usize], reps: usize, spec: &NetSpec, cmd: &NetCmd, class: &str, name: &str, descr: &str) {
     use crate::case::run_net_cmd;
@@ -2186,6 +2303,19 @@ pub fn fals_c05(rng: &mut Rng, thorough: bool) -> crate::fals::Fals {
         let big_pools: Vec<usize> = if thorough { vec![1, 2, 4, 8, 16] } else { vec![1, 4, 8] };
         let cmd = NetCmd::Learn { data, val: None, batch: 64, epochs: 2 };
         across_pools(&mut f, rng, &big_pools, 2, &spec, &cmd, "schedule/learn/large-batch-x-parameters", "learn", "256->256->8 dense network, batch 64");
+    }
+    // 72 / 130 outputs under the regression objectives: the losses reported by learn and validate are bit-identical
+    // across pools, schedules and plain repetitions (interleaved with allocations of varying size, so that the
+    // temporaries of the loss computation land at varying addresses)
+    for (k, obj) in [Obj::MSE, Obj::MAE, Obj::AE, Obj::RMSE].into_iter().enumerate() {
+        let (spec, data) = wide_output_job(rng, if k % 2 == 0 { 72 } else { 130 }, obj, 70);
+        let cmds = vec![
+            ("learn", NetCmd::Learn { data: data[..12].to_vec(), val: Some((data.clone(), 100)), batch: 4, epochs: 2 }),
+            ("validate", NetCmd::Validate { data: data.clone(), tol: 0.1, pre_training: false }),
+        ];
+        for (name, cmd) in cmds {
+            across_pools(&mut f, rng, &pools, reps.max(6), &spec, &cmd, &format!("schedule/{}/wide-output-regression", name), name, &format!("6->{} dense network under {:?}", if k % 2 == 0 { 72 } else { 130 }, obj));
+        }
     }
     // a soft-max over 96 / 200 classes: a summation whose order depends on where a temporary buffer happens to
     // lie in memory (alignment-split vector lanes) differs between threads, schedules and plain repetitions
